@@ -33,13 +33,13 @@ import (
 	"github.com/snapcore/snapd/overlord/state"
 	"github.com/snapcore/snapd/release"
 	"github.com/snapcore/snapd/snap"
+	"github.com/snapcore/snapd/snap/channel"
 	"github.com/snapcore/snapd/zzverif/vh"
 )
 
 type verifC10Suite struct {
 	snapmgrBaseTest
 	hookCfg  int  // when > 0 the configure / post-refresh hook of the running change sets the snap's config to this value
-	hookSeen bool // the hook ran and changed the configuration
 }
 
 var _ = Suite(&verifC10Suite{})
@@ -55,12 +55,14 @@ const (
 	c10IgnoreValidation
 	c10NotBlocked // revert only: do not block the reverted-from revision
 	c10HookCfg    // the configure (install, refresh) hook changes the configuration of the snap
-	c10Cohort     // join cohort `c1`
 )
 
 type c10Op struct {
 	Kind  string `json:"kind"`            // install refresh revert revert-to remove remove-rev enable disable retain retain-str setcfg inhibit
-	Rev   int    `json:"rev,omitempty"`   // target revision (install, refresh, revert-to, remove-rev); retain value (retain, retain-str); config value (setcfg)
+	// install: the revision. refresh: 0 = a revision never seen before, n > 0 = the kept revision at index (n-1) mod len
+	// (the next one when that is the current one; a new one when there is no other). revert-to / remove-rev: n > 0 = the kept
+	// revision at index (n-1) mod len, 0 = revision 99 (never kept). retain / retain-str / setcfg: the value.
+	Rev   int    `json:"rev,omitempty"`
 	Chan  int    `json:"chan,omitempty"`  // 0 none, 1 latest/stable, 2 latest/edge, 3 2.0/beta
 	Flags int    `json:"flags,omitempty"` // c10* bits
 	// failure injection. Fail = 0: none. Fail = k >= 1: an error-trigger task runs in place of the k-th task of the
@@ -103,12 +105,32 @@ type c10State struct {
 	Link       int    `json:"link"`    // world: revision the backend linked as current, 0 = none
 }
 
+// the SnapSetup fields of the change that doLinkSnap reads
+type c10Sup struct {
+	Rev        int    `json:"rev"`
+	Chan       string `json:"chan"`
+	DevMode    bool   `json:"devmode"`
+	JailMode   bool   `json:"jailmode"`
+	Classic    bool   `json:"classic"`
+	TryMode    bool   `json:"trymode"`
+	IgnoreVal  bool   `json:"ignore-validation"`
+	Cohort     string `json:"cohort"`
+	Revert     bool   `json:"revert"`
+	NotBlocked bool   `json:"not-blocked"`
+}
+
 type c10Step struct {
 	Op      c10Op    `json:"op"`
+	Rev     int      `json:"rev"` // effective target revision
 	Now     int      `json:"now"`
+	RSet    string   `json:"rset"` // refresh.retain as set: `` unset, `n5` number, `s5` string
+	Sup     *c10Sup  `json:"sup,omitempty"`
+	HookCfg int      `json:"hookcfg"`
+	Before  c10State `json:"-"`
 	Retain  int      `json:"retain"` // what refreshRetain answers before the operation
 	Err     bool     `json:"err"`    // the entry point refused (no change created)
 	Kinds   []string `json:"kinds,omitempty"`
+	KRevs   []int    `json:"krevs,omitempty"` // revision of each task's own snap-setup
 	K       int      `json:"k"` // effective failure position (0 none)
 	NPos    int      `json:"npos"` // number of failure positions of the change (tasks + 1)
 	Status  string   `json:"status,omitempty"`
@@ -244,44 +266,96 @@ const c10Epoch = 1600000000
 
 func (s *verifC10Suite) retain() int { return snapstate.RefreshRetain(s.state) }
 
+// per-history bookkeeping of the driver
+type c10Run struct {
+	w      *c10World
+	now    int
+	maxRev int    // highest revision ever asked for
+	rset   string // refresh.retain as set by the history
+	last   c10State
+}
+
+func (r *c10Run) kept(hint int) int {
+	seq := r.last.Seq
+	if hint <= 0 || len(seq) == 0 {
+		return 99
+	}
+	return seq[(hint-1)%len(seq)]
+}
+
+// emulate the data directories the real backend manages: undoUnlinkSnap looks at them
+func c10DataDirs(fop *fakeOp) {
+	name, rev := c10RevOfPath(fop.path)
+	if name != c10Snap {
+		return
+	}
+	pi := snap.MinimalPlaceInfo(name, snap.R(rev))
+	switch fop.op {
+	case "copy-data":
+		os.MkdirAll(pi.DataDir(), 0755)
+		os.MkdirAll(pi.CommonDataDir(), 0755)
+	case "remove-snap-data":
+		os.RemoveAll(pi.DataDir())
+	case "remove-snap-common-data":
+		os.RemoveAll(pi.CommonDataDir())
+	}
+}
+
 // one operation = one change (or a refusal). State lock held by the caller.
-func (s *verifC10Suite) runOp(c *C, op c10Op, now int, w *c10World, fail int) c10Step {
+func (s *verifC10Suite) runOp(c *C, op c10Op, run *c10Run, fail int) c10Step {
 	st := s.state
-	step := c10Step{Op: op, Now: now, Retain: s.retain()}
+	run.now++
+	now := run.now
+	step := c10Step{Op: op, Now: now, Retain: s.retain(), Before: run.last}
 	var ts *state.TaskSet
 	var err error
 	flags := snapstate.Flags{DevMode: op.Flags&c10DevMode != 0, JailMode: op.Flags&c10JailMode != 0,
 		IgnoreValidation: op.Flags&c10IgnoreValidation != 0}
 	ropts := &snapstate.RevisionOptions{Channel: c10Chans[op.Chan%len(c10Chans)]}
-	if op.Flags&c10Cohort != 0 {
-		ropts.CohortKey = "c1"
-	}
-	s.hookCfg, s.hookSeen = 0, false
+	s.hookCfg = 0
 	if op.Flags&c10HookCfg != 0 {
 		s.hookCfg = 1000 + now
 	}
+	rev := op.Rev
 	switch op.Kind {
 	case "install":
-		ropts.Revision = snap.R(op.Rev)
+		if rev <= 0 {
+			rev = 1
+		}
+		ropts.Revision = snap.R(rev)
 		ts, err = snapstate.Install(context.Background(), st, c10Snap, ropts, s.user.ID, flags)
 	case "refresh":
-		ropts.Revision = snap.R(op.Rev)
-		s.fakeStore.refreshRevnos = map[string]snap.Revision{c10Snap + "-id": snap.R(op.Rev)}
+		seq := run.last.Seq
+		if op.Rev <= 0 || len(seq) <= 1 {
+			rev = run.maxRev + 1
+		} else {
+			i := (op.Rev - 1) % len(seq)
+			if seq[i] == run.last.Current {
+				i = (i + 1) % len(seq)
+			}
+			rev = seq[i]
+		}
+		ropts.Revision = snap.R(rev)
+		s.fakeStore.refreshRevnos = map[string]snap.Revision{c10Snap + "-id": snap.R(rev)}
 		ts, err = snapstate.Update(st, c10Snap, ropts, s.user.ID, flags)
 	case "revert":
+		rev = 0
 		if op.Flags&c10NotBlocked != 0 {
 			flags.RevertStatus = snapstate.NotBlocked
 		}
 		ts, err = snapstate.Revert(st, c10Snap, flags, "")
 	case "revert-to":
+		rev = run.kept(op.Rev)
 		if op.Flags&c10NotBlocked != 0 {
 			flags.RevertStatus = snapstate.NotBlocked
 		}
-		ts, err = snapstate.RevertToRevision(st, c10Snap, snap.R(op.Rev), flags, "")
+		ts, err = snapstate.RevertToRevision(st, c10Snap, snap.R(rev), flags, "")
 	case "remove":
+		rev = 0
 		ts, err = snapstate.Remove(st, c10Snap, snap.R(0), nil)
 	case "remove-rev":
-		ts, err = snapstate.Remove(st, c10Snap, snap.R(op.Rev), nil)
+		rev = run.kept(op.Rev)
+		ts, err = snapstate.Remove(st, c10Snap, snap.R(rev), nil)
 	case "enable":
 		ts, err = snapstate.Enable(st, c10Snap)
 	case "disable":
@@ -290,15 +364,22 @@ func (s *verifC10Suite) runOp(c *C, op c10Op, now int, w *c10World, fail int) c1
 		tr := config.NewTransaction(st)
 		if op.Kind == "retain" {
 			tr.Set("core", "refresh.retain", op.Rev)
+			run.rset = "n" + strconv.Itoa(op.Rev)
 		} else {
 			tr.Set("core", "refresh.retain", strconv.Itoa(op.Rev))
+			run.rset = "s" + strconv.Itoa(op.Rev)
 		}
 		tr.Commit()
+		step.Retain = s.retain()
 	case "setcfg":
-		// what `snap set some-snap k=<v>` leaves in the state
-		tr := config.NewTransaction(st)
-		tr.Set(c10Snap, "k", op.Rev)
-		tr.Commit()
+		// what `snap set some-snap k=<v>` leaves in the state (only on an installed snap)
+		if len(run.last.Seq) > 0 {
+			tr := config.NewTransaction(st)
+			tr.Set(c10Snap, "k", op.Rev)
+			tr.Commit()
+		} else {
+			err = errors.New("not installed")
+		}
 	case "inhibit":
 		// what the refresh-app-awareness inhibition records on a running snap
 		var snapst snapstate.SnapState
@@ -306,26 +387,45 @@ func (s *verifC10Suite) runOp(c *C, op c10Op, now int, w *c10World, fail int) c1
 			t := time.Unix(c10Epoch+int64(now), 0)
 			snapst.RefreshInhibitedTime = &t
 			snapstate.Set(st, c10Snap, &snapst)
+		} else {
+			err = e
 		}
 	default:
 		c.Fatalf("unknown op kind %q", op.Kind)
 	}
+	if rev > run.maxRev && rev != 99 {
+		run.maxRev = rev
+	}
+	step.Rev = rev
+	step.RSet = run.rset
+	step.HookCfg = s.hookCfg
 	if err != nil {
 		step.Err = true
 	}
 	if ts != nil && err == nil {
 		tasks := ts.Tasks()
-		for _, t := range tasks {
-			step.Kinds = append(step.Kinds, c10Kind(t))
-		}
 		chg := st.NewChange("verif-"+op.Kind, "...")
 		chg.AddAll(ts)
 		// Update appends check-rerefresh, which insists on being the last task of its change: it is not a failure
-		// position of its own (a failure `after the last task` runs before it)
+		// position of its own (a failure `after the last task` runs before it) and it is not part of the compared chain
 		var rerefresh *state.Task
 		if n := len(tasks); n > 0 && tasks[n-1].Kind() == "check-rerefresh" {
 			rerefresh = tasks[n-1]
 			tasks = tasks[:n-1]
+		}
+		for _, t := range tasks {
+			k := c10Kind(t)
+			r := 0
+			if sup, e := snapstate.TaskSnapSetup(t); e == nil && sup.SideInfo != nil {
+				r = sup.Revision().N
+			}
+			step.Kinds = append(step.Kinds, k)
+			step.KRevs = append(step.KRevs, r)
+		}
+		if sup, e := snapstate.TaskSnapSetup(tasks[0]); e == nil {
+			step.Sup = &c10Sup{Rev: sup.Revision().N, Chan: sup.Channel, DevMode: sup.DevMode, JailMode: sup.JailMode,
+				Classic: sup.Classic, TryMode: sup.TryMode, IgnoreVal: sup.IgnoreValidation, Cohort: sup.CohortKey,
+				Revert: sup.Revert, NotBlocked: sup.RevertStatus == snapstate.NotBlocked}
 		}
 		step.NPos = len(tasks) + 1
 		k := 0
@@ -353,30 +453,29 @@ func (s *verifC10Suite) runOp(c *C, op c10Op, now int, w *c10World, fail int) c1
 			chg.AddTask(terr)
 		}
 		step.K = k
-		s.fakeBackend.maybeInjectErr = nil
-		if op.Inside != "" && fail == 0 {
-			fired := false
-			s.fakeBackend.maybeInjectErr = func(fop *fakeOp) error {
-				if !fired && fop.op == op.Inside {
-					fired = true
-					return errors.New("injected backend failure")
-				}
-				return nil
-			}
-		}
-		before := len(s.fakeBackend.ops)
+		s.fakeBackend.maybeInjectErr = func(fop *fakeOp) error { c10DataDirs(fop); return nil }
 		s.settle(c)
 		s.fakeBackend.maybeInjectErr = nil
 		step.Status = chg.Status().String()
 		if !chg.IsReady() {
 			c.Fatalf("change not ready: %v", chg.Status())
 		}
-		_ = before
+		// the order of ts.Tasks() is the order in which the tasks ran
+		if k == 0 {
+			for i := 1; i < len(tasks); i++ {
+				if tasks[i].ReadyTime().Before(tasks[i-1].ReadyTime()) {
+					c.Fatalf("tasks did not run in list order: %s before %s", tasks[i].Kind(), tasks[i-1].Kind())
+				}
+			}
+		}
+		// keep the state small: forget the finished change
+		st.Prune(time.Now(), 0, time.Hour, 0)
 	}
-	c0 := w.copies
-	w.absorb(s.fakeBackend.ops)
-	step.Copies = w.copies - c0
-	step.After = s.observe(c, w)
+	c0 := run.w.copies
+	run.w.absorb(s.fakeBackend.ops)
+	step.Copies = run.w.copies - c0
+	step.After = s.observe(c, run.w)
+	run.last = step.After
 	return step
 }
 
@@ -396,8 +495,9 @@ func (s *verifC10Suite) play(c *C, in c10In) []c10Step {
 	s.TearDownTest(c)
 	s.SetUpTest(c)
 	s.AddCleanup(release.MockOnClassic(!in.Core))
-	now := 0
-	s.AddCleanup(snapstate.MockTimeNow(func() time.Time { return time.Unix(c10Epoch+int64(now), 0) }))
+	run := &c10Run{w: &c10World{mounted: map[int]bool{}}}
+	run.last = c10State{Seq: []int{}, NotBlocked: []int{}, Block: []int{}, RevCfg: [][2]int{}, Mounted: []int{}}
+	s.AddCleanup(snapstate.MockTimeNow(func() time.Time { return time.Unix(c10Epoch+int64(run.now), 0) }))
 	// the configure hook of the real hook manager runs the snap's hook script, which may `snapctl set`: stand-in
 	// that writes the configuration through the same config.Transaction the hook context commits
 	s.o.TaskRunner().AddHandler("run-hook", func(t *state.Task, _ *tomb.Tomb) error {
@@ -412,46 +512,295 @@ func (s *verifC10Suite) play(c *C, in c10In) []c10Step {
 			tr := config.NewTransaction(st)
 			tr.Set(c10Snap, "k", s.hookCfg)
 			tr.Commit()
-			s.hookSeen = true
 		}
 		return nil
 	}, nil)
 
 	s.state.Lock()
 	defer s.state.Unlock()
-	w := &c10World{mounted: map[int]bool{}}
 	var steps []c10Step
 	for _, op := range in.Ops {
 		if op.Sweep {
-			now++
-			first := s.runOp(c, op, now, w, 1)
-			steps = append(steps, first)
-			for k := 2; k <= first.NPos && first.K > 0; k++ {
-				now++
-				steps = append(steps, s.runOp(c, op, now, w, k))
+			for k := 1; ; k++ {
+				st := s.runOp(c, op, run, k)
+				if st.K != k { // refused, or k is past the last position of the (possibly shorter) chain
+					if st.K == 0 {
+						steps = append(steps, st)
+					}
+					break
+				}
+				steps = append(steps, st)
 			}
-			now++
-			steps = append(steps, s.runOp(c, op, now, w, 0))
+			if n := len(steps); n > 0 && steps[n-1].Err {
+				continue
+			}
+			steps = append(steps, s.runOp(c, op, run, 0))
 			continue
 		}
-		now++
-		steps = append(steps, s.runOp(c, op, now, w, op.Fail))
+		steps = append(steps, s.runOp(c, op, run, op.Fail))
 	}
 	return steps
 }
 
-func (s *verifC10Suite) TestVerifC10Probe(c *C) {
-	if os.Getenv("VERIF_C10_PROBE") == "" {
-		c.Skip("probe only")
-	}
-	var in c10In
-	if err := json.Unmarshal([]byte(os.Getenv("VERIF_C10_PROBE")), &in); err != nil {
-		c.Fatal(err)
-	}
-	for _, st := range s.play(c, in) {
-		b, _ := json.Marshal(st)
-		fmt.Println(string(b))
-	}
-	_ = strings.Join
-	_ = vh.CoqN
+// ---------------------------------------------------------------------------------------------- Coq rendering
+
+var c10KindCoq = map[string]string{
+	"prerequisites": "KPrereq", "prepare-snap": "KPrepare", "download-snap": "KDownload", "validate-snap": "KValidate",
+	"mount-snap": "KMount", "hook:pre-refresh": "KPreRefresh", "stop-snap-services": "KStop", "remove-aliases": "KRemoveAliases",
+	"unlink-current-snap": "KUnlinkCurrent", "copy-snap-data": "KCopyData", "setup-profiles": "KSetupProfiles",
+	"link-snap": "KLink", "auto-connect": "KAutoConnect", "set-auto-aliases": "KSetAutoAliases", "setup-aliases": "KSetupAliases",
+	"hook:post-refresh": "KPostRefresh", "hook:install": "KInstallHook", "hook:default-configure": "KDefaultConfigure",
+	"start-snap-services": "KStart", "clear-snap": "KClear", "discard-snap": "KDiscard", "cleanup": "KCleanup",
+	"hook:configure": "KConfigure", "hook:check-health": "KCheckHealth", "hook:remove": "KRemoveHook",
+	"auto-disconnect": "KAutoDisconnect", "save-snapshot": "KSaveSnapshot", "unlink-snap": "KUnlinkSnap",
+	"remove-profiles": "KRemoveProfiles",
 }
+
+var c10OpCoq = map[string]string{"install": "OInstall", "refresh": "ORefresh", "revert": "ORevert", "revert-to": "ORevert",
+	"remove": "ORemove", "remove-rev": "ORemoveRev", "enable": "OEnable", "disable": "ODisable", "setcfg": "OSetCfg",
+	"inhibit": "OInhibit", "retain": "ORetain", "retain-str": "ORetain"}
+
+// SnapState.SetTrackingChannel stores channel.Full(name): the identifiers are those of the normalised names
+func c10ChanID(ch string) uint64 {
+	if ch != "" {
+		if full, err := channel.Full(ch); err == nil {
+			ch = full
+		}
+	}
+	for i, x := range c10Chans {
+		if x == ch {
+			return uint64(i)
+		}
+	}
+	return 99
+}
+
+func c10CohortID(k string) uint64 {
+	if k == "" {
+		return 0
+	}
+	return 99
+}
+
+func c10NList(xs []int) string {
+	items := make([]string, len(xs))
+	for i, x := range xs {
+		items[i] = vh.CoqN(uint64(x))
+	}
+	return vh.CoqList(items)
+}
+
+func c10StateCoq(o c10State) string {
+	rc := make([]string, len(o.RevCfg))
+	for i, kv := range o.RevCfg {
+		rc[i] = vh.CoqTuple(vh.CoqN(uint64(kv[0])), vh.CoqN(uint64(kv[1])))
+	}
+	return "(mkSt " + strings.Join([]string{c10NList(o.Seq), vh.CoqN(uint64(o.Current)), vh.CoqBool(o.Active),
+		vh.CoqN(c10ChanID(o.Chan)), vh.CoqBool(o.DevMode), vh.CoqBool(o.JailMode), vh.CoqBool(o.Classic), vh.CoqBool(o.TryMode),
+		vh.CoqBool(o.IgnoreVal), vh.CoqN(c10CohortID(o.Cohort)), vh.CoqN(uint64(o.LastRefr)), vh.CoqN(uint64(o.Inhibited)),
+		c10NList(o.NotBlocked), vh.CoqN(uint64(o.Cfg)), vh.CoqList(rc), c10NList(o.Mounted), vh.CoqN(uint64(o.Link))}, " ") + ")"
+}
+
+func c10StepCoq(x c10Step, classic bool) string {
+	sup := x.Sup
+	if sup == nil {
+		sup = &c10Sup{Rev: x.Rev}
+	}
+	rev := sup.Rev
+	if x.Op.Kind == "remove-rev" || x.Op.Kind == "setcfg" {
+		rev = x.Rev
+	}
+	if x.Op.Kind == "setcfg" {
+		rev = x.Op.Rev
+	}
+	op := "(mkOp " + strings.Join([]string{c10OpCoq[x.Op.Kind], vh.CoqN(uint64(rev)), vh.CoqBool(x.Op.Kind == "revert"),
+		vh.CoqN(c10ChanID(sup.Chan)), vh.CoqBool(sup.DevMode), vh.CoqBool(sup.JailMode), vh.CoqBool(sup.Classic),
+		vh.CoqBool(sup.TryMode), vh.CoqBool(sup.IgnoreVal), vh.CoqN(c10CohortID(sup.Cohort)), vh.CoqBool(sup.NotBlocked),
+		vh.CoqN(uint64(x.HookCfg)), vh.CoqN(uint64(x.Now))}, " ") + ")"
+	rset := "RUnset"
+	if len(x.RSet) > 1 {
+		n, _ := strconv.Atoi(x.RSet[1:])
+		if x.RSet[0] == 'n' {
+			rset = "(RNum " + vh.CoqZ(int64(n)) + ")"
+		} else {
+			rset = "(RStr " + vh.CoqZ(int64(n)) + ")"
+		}
+	}
+	chain := make([]string, len(x.Kinds))
+	for i, k := range x.Kinds {
+		ck, ok := c10KindCoq[k]
+		if !ok {
+			ck = "KOther"
+		}
+		chain[i] = vh.CoqTuple(ck, vh.CoqN(uint64(x.KRevs[i])))
+	}
+	return "(mkStep " + strings.Join([]string{op, vh.CoqNat(x.K), rset, vh.CoqBool(classic), vh.CoqZ(int64(x.Retain)),
+		vh.CoqBool(x.Err), vh.CoqList(chain), c10NList(x.After.Block), vh.CoqN(uint64(x.Copies)), c10StateCoq(x.After)}, " ") + ")"
+}
+
+// ---------------------------------------------------------------------------------------------- generation
+
+func c10Pick3(r *vh.Rand, a, b, c int) int { return []int{a, b, c}[r.Intn(3)] }
+
+func c10RandOp(r *vh.Rand, installed bool) c10Op {
+	var op c10Op
+	p := r.Intn(100)
+	switch {
+	case !installed && p < 80:
+		op = c10Op{Kind: "install", Rev: r.Range(1, 3), Chan: r.Intn(4)}
+	case p < 30:
+		op = c10Op{Kind: "refresh", Rev: 0, Chan: c10Pick3(r, 0, 0, r.Intn(4))}
+	case p < 45:
+		op = c10Op{Kind: "refresh", Rev: r.Range(1, 6), Chan: c10Pick3(r, 0, 0, r.Intn(4))}
+	case p < 55:
+		op = c10Op{Kind: "revert"}
+	case p < 65:
+		op = c10Op{Kind: "revert-to", Rev: r.Range(0, 6)}
+	case p < 69:
+		op = c10Op{Kind: "remove"}
+	case p < 75:
+		op = c10Op{Kind: "remove-rev", Rev: r.Range(0, 6)}
+	case p < 80:
+		op = c10Op{Kind: "disable"}
+	case p < 86:
+		op = c10Op{Kind: "enable"}
+	case p < 90:
+		return c10Op{Kind: "retain", Rev: c10Pick3(r, 2, 3, r.Range(2, 6))}
+	case p < 92:
+		return c10Op{Kind: "retain-str", Rev: r.Range(2, 5)}
+	case p < 96:
+		return c10Op{Kind: "setcfg", Rev: r.Range(1, 9)}
+	default:
+		return c10Op{Kind: "inhibit"}
+	}
+	switch r.Intn(6) {
+	case 0:
+		op.Flags |= c10DevMode
+	case 1:
+		op.Flags |= c10JailMode
+	}
+	if r.Chance(1, 5) {
+		op.Flags |= c10IgnoreValidation
+	}
+	if r.Chance(1, 2) {
+		op.Flags |= c10NotBlocked
+	}
+	if r.Chance(1, 3) {
+		op.Flags |= c10HookCfg
+	}
+	if r.Chance(1, 2) {
+		op.Fail = r.Range(1, 60)
+	}
+	return op
+}
+
+// base histories whose last operation is swept over every failure position
+func c10Sweeps(tier string) []c10In {
+	inst := c10Op{Kind: "install", Rev: 1, Chan: 1}
+	newr := c10Op{Kind: "refresh", Rev: 0}
+	hook := c10HookCfg
+	sw := func(op c10Op) c10Op { op.Sweep = true; return op }
+	ins := []c10In{
+		{Ops: []c10Op{sw(c10Op{Kind: "install", Rev: 1, Chan: 2, Flags: c10DevMode | hook})}},
+		{Ops: []c10Op{inst, {Kind: "setcfg", Rev: 5}, sw(c10Op{Kind: "refresh", Chan: 2, Flags: c10JailMode | hook})}},
+		// refresh with garbage collection (retain 2: the oldest of [1,2] goes)
+		{Ops: []c10Op{inst, newr, {Kind: "setcfg", Rev: 5}, sw(c10Op{Kind: "refresh", Flags: hook})}},
+		// refresh back to a kept revision, the sequence is reordered and put back
+		{Core: true, Ops: []c10Op{inst, newr, newr, {Kind: "setcfg", Rev: 5}, sw(c10Op{Kind: "refresh", Rev: 2})}},
+		// revert (blocking and not blocking)
+		{Core: true, Ops: []c10Op{inst, newr, {Kind: "setcfg", Rev: 5}, newr, {Kind: "inhibit"}, sw(c10Op{Kind: "revert", Flags: hook})}},
+		{Core: true, Ops: []c10Op{inst, newr, newr, {Kind: "setcfg", Rev: 5}, sw(c10Op{Kind: "revert-to", Rev: 1, Flags: c10NotBlocked})}},
+		// finding 6 and 7: current 1 after a not-blocking revert from 3, refresh to the kept revision 3
+		{Core: true, Ops: []c10Op{inst, newr, newr, {Kind: "revert-to", Rev: 1, Flags: c10NotBlocked}, sw(c10Op{Kind: "refresh", Rev: 3})}},
+		// a snap without configuration whose configure hook writes some
+		{Ops: []c10Op{inst, sw(c10Op{Kind: "refresh", Flags: hook})}},
+	}
+	if tier == "thorough" {
+		ins = append(ins,
+			c10In{Ops: []c10Op{inst, newr, sw(c10Op{Kind: "remove"})}},
+			c10In{Ops: []c10Op{inst, newr, sw(c10Op{Kind: "disable"}), sw(c10Op{Kind: "enable"})}},
+			c10In{Core: true, Ops: []c10Op{inst, newr, newr, {Kind: "revert"}, {Kind: "disable"}, sw(c10Op{Kind: "enable"})}},
+			c10In{Core: true, Ops: []c10Op{inst, newr, newr, {Kind: "revert"}, sw(c10Op{Kind: "refresh"})}},
+		)
+	}
+	return ins
+}
+
+func c10Gen(r *vh.Rand, tier string, n int) []c10In {
+	ins := c10Sweeps(tier)
+	if n == 0 {
+		n = 40
+	}
+	for i := 0; i < n; i++ {
+		in := c10In{Core: r.Chance(1, 2)}
+		installed := false
+		for j, m := 0, r.Range(3, 9); j < m; j++ {
+			op := c10RandOp(r, installed)
+			if op.Kind == "install" && op.Fail == 0 {
+				installed = true
+			}
+			if op.Kind == "remove" && op.Fail == 0 {
+				installed = false
+			}
+			in.Ops = append(in.Ops, op)
+		}
+		ins = append(ins, in)
+	}
+	return ins
+}
+
+func (s *verifC10Suite) exec(c *C, in c10In) vh.Out {
+	steps := s.play(c, in)
+	coq := make([]string, len(steps))
+	tagset := map[string]bool{}
+	nontrivial := false
+	for i, x := range steps {
+		coq[i] = c10StepCoq(x, !in.Core)
+		tagset["op:"+x.Op.Kind] = true
+		if x.Err {
+			tagset["refused:"+x.Op.Kind] = true
+		}
+		if x.K > 0 {
+			pos := "after-last"
+			if x.K <= len(x.Kinds) {
+				pos = x.Kinds[x.K-1]
+			}
+			tagset["fail-at:"+pos] = true
+			for j := 0; j < x.K-1 && j < len(x.Kinds); j++ {
+				if x.Kinds[j] == "link-snap" {
+					nontrivial = true
+					tagset["undone-past-link"] = true
+				}
+				if x.Kinds[j] == "discard-snap" {
+					tagset["undone-past-discard"] = true
+				}
+			}
+		}
+	}
+	var tags []string
+	for t := range tagset {
+		tags = append(tags, t)
+	}
+	sort.Strings(tags)
+	return vh.Out{Observed: steps, Coq: "(mkCase " + vh.CoqList(coq) + ")", NonTrivial: nontrivial, Tags: tags}
+}
+
+func (s *verifC10Suite) TestVerifC10Driver(c *C) {
+	if os.Getenv("VERIF_OUT") == "" && os.Getenv("VERIF_C10_PROBE") == "" {
+		c.Skip("driver of the /verif checks; runs only under ./check")
+	}
+	if p := os.Getenv("VERIF_C10_PROBE"); p != "" {
+		var in c10In
+		if err := json.Unmarshal([]byte(p), &in); err != nil {
+			c.Fatal(err)
+		}
+		for _, st := range s.play(c, in) {
+			b, _ := json.Marshal(st)
+			fmt.Println(string(b))
+		}
+		return
+	}
+	vh.Run(c10Gen, func(in c10In) vh.Out { return s.exec(c, in) })
+}
+
+var _ = filepath.Join
